@@ -145,3 +145,60 @@ func TestExecSmoke(t *testing.T) {
 }
 
 var _ = strings.Contains
+
+const benchSrc = `
+struct S { a: i32, v: vec3<f32>, arr: array<u32, 4> }
+@group(0) @binding(0) var<storage, read_write> out: array<i32>;
+@group(0) @binding(1) var<uniform> u: S;
+var<private> cnt: i32 = 3;
+const K = array<i32,3>(10,20,30);
+fn helper(p: ptr<function, i32>, q: i32) -> i32 {
+  if (q > 2) { *p = q; return 1; }
+  switch q { case 1, 2: { *p = *p + 1; } default: { return 5; } }
+  return *p;
+}
+@compute @workgroup_size(1)
+fn main(@builtin(global_invocation_id) gid: vec3<u32>) {
+  var x = i32(gid.x) + cnt;
+  var y: i32;
+  let r = helper(&x, 2);
+  var v = vec3<f32>(1.0, 2.0, 3.0);
+  v.y = u.v.x;
+  for (var i = 0; i < 3; i++) { y += K[i]; if (i == 1) { continue; } }
+  out[gid.x] = x + y + r + i32(v.y) + i32(arrayLength(&out)) + i32(u.arr[2]);
+}
+`
+
+func BenchmarkExec(b *testing.B) {
+	m := lower(b, benchSrc)
+	bufs := xrt.Buffers{bnd(0, 0): make([]byte, 16), bnd(0, 1): make([]byte, 64)}
+	b.ResetTimer()
+	for i := 0; i < b.N; i++ {
+		if err := Exec(m, bufs, xrt.Opts{}); err != nil {
+			b.Fatal(err)
+		}
+	}
+}
+
+func BenchmarkRunPrepared(b *testing.B) {
+	m := lower(b, benchSrc)
+	p, err := Compile(m)
+	if err != nil {
+		b.Fatal(err)
+	}
+	bufs := xrt.Buffers{bnd(0, 0): make([]byte, 16), bnd(0, 1): make([]byte, 64)}
+	b.ResetTimer()
+	for i := 0; i < b.N; i++ {
+		if err := p.Run(bufs, xrt.Opts{}); err != nil {
+			b.Fatal(err)
+		}
+	}
+}
+
+func BenchmarkValidate(b *testing.B) {
+	m := lower(b, benchSrc)
+	b.ResetTimer()
+	for i := 0; i < b.N; i++ {
+		Validate(m, ValidateOpts{})
+	}
+}
